@@ -9,6 +9,7 @@ import (
 	"errors"
 	"fmt"
 	"io"
+	"math"
 	"net"
 	"os"
 	"sync"
@@ -295,7 +296,14 @@ func noiseRun(r *simcore.Run) {
 				t.Bytes(msg)
 			}
 			useConnWrite := r.Draw(4) == 3
-			noiseWrite(r, sides[x], msg, useConnWrite)
+			if large := r.Draw(24); large >= 22 && arm != "benign-long" {
+				// Conn.Write of more than one record's worth of bytes
+				big := make([]byte, []int{65536, 65537 + r.Draw(70000), 131070 + r.Draw(4)}[r.Draw(3)])
+				t.Bytes(big)
+				noiseWriteLarge(r, sides[x], big)
+			} else {
+				noiseWrite(r, sides[x], msg, useConnWrite)
+			}
 			if r.Draw(3) != 0 {
 				delivered += noiseReadAll(r, sides[1-x], sides[x])
 			}
@@ -349,6 +357,7 @@ func noiseWrite(r *simcore.Run, s *noiseSide, msg []byte, useConnWrite bool) {
 			if !errors.As(err, &ne) || !ne.Timeout() || tries > 200 {
 				r.Fail("write-error", "%s Conn.Write/Flush: %v", s.name, err)
 			}
+			noiseImpatientWrite(r, s)
 			n, err = s.conn.Flush()
 			total += n
 		}
@@ -366,6 +375,7 @@ func noiseWrite(r *simcore.Run, s *noiseSide, msg []byte, useConnWrite bool) {
 			if !errors.As(err, &ne) || !ne.Timeout() || tries > 200 {
 				r.Fail("write-error", "%s Flush: %v", s.name, err)
 			}
+			noiseImpatientWrite(r, s)
 		}
 	}
 	if total != len(msg) {
@@ -393,6 +403,116 @@ func noiseWrite(r *simcore.Run, s *noiseSide, msg []byte, useConnWrite bool) {
 	}
 	s.sent = append(s.sent, append([]byte(nil), msg...))
 	s.frames = append(s.frames, append([]byte(nil), s.end.out.buf[start:]...))
+}
+
+// noiseImpatientWrite is a caller that, after a write timed out, tries to
+// write a new message instead of resuming the flush. The Machine has one
+// pending slot, so the attempt has to be refused; if it is accepted the
+// ciphertext still owed to the wire is replaced and the peer can never read
+// the interrupted message.
+func noiseImpatientWrite(r *simcore.Run, s *noiseSide) {
+	m := s.m
+	if len(m.nextHeaderSend) == 0 && len(m.nextBodySend) == 0 {
+		return // the interrupted write happens to be complete
+	}
+	if !r.Chance(1, 4) {
+		return
+	}
+	hdr := append([]byte(nil), m.nextHeaderSend...)
+	body := append([]byte(nil), m.nextBodySend...)
+	err := s.conn.WriteMessage([]byte("impatient"))
+	if err == nil {
+		what := "dropped silently"
+		if !bytes.Equal(hdr, m.nextHeaderSend) || !bytes.Equal(body, m.nextBodySend) {
+			what = "put in place of the ciphertext still owed to the wire"
+		}
+		r.Fail("interrupted-write-overwritten", "%s: a write timed out with %d header and %d body bytes of the message still unflushed; a new WriteMessage was accepted and %s: the peer cannot read the interrupted message any more",
+			s.name, len(hdr), len(body), what)
+	}
+	r.Count("probe_write_refused_while_unflushed")
+	if len(hdr) == 0 {
+		r.Count("probe_write_refused_with_only_body_unflushed")
+	}
+}
+
+// noiseWriteLarge writes more than 65535 bytes through Conn.Write, which
+// splits them into maximal records. An interrupted call is resumed the way an
+// io.Writer is: finish the record in flight with Flush, then Write what is
+// left. The reader must see the same bytes, record by record.
+func noiseWriteLarge(r *simcore.Run, s *noiseSide, b []byte) {
+	if s.pre != nil {
+		defer s.pre(true)()
+	}
+	c := &s.m.sendCipher
+	k0, n0 := c.secretKey, c.nonce
+	start := len(s.end.out.buf)
+	off := 0
+	for guard := 0; off < len(b); guard++ {
+		if guard > 400 {
+			r.Fail("write-error", "%s: Conn.Write of %d bytes made no progress after 400 resumes (at %d)", s.name, len(b), off)
+		}
+		n, err := s.conn.Write(b[off:])
+		off += n
+		for tries := 0; err != nil; tries++ {
+			var ne net.Error
+			if !errors.As(err, &ne) || !ne.Timeout() || tries > 200 {
+				r.Fail("write-error", "%s Conn.Write/Flush (chunked, %d of %d): %v", s.name, off, len(b), err)
+			}
+			r.Count("probe_chunked_write_interrupted")
+			noiseImpatientWrite(r, s)
+			var m int
+			m, err = s.conn.Flush()
+			off += m
+		}
+	}
+	if off != len(b) {
+		r.Fail("flush-accounting", "%s: Conn.Write/Flush reported %d plaintext bytes in total for a %d byte payload", s.name, off, len(b))
+	}
+	var chunks [][]byte
+	for rest := b; len(rest) > 0; {
+		n := len(rest)
+		if n > math.MaxUint16 {
+			n = math.MaxUint16
+		}
+		chunks = append(chunks, append([]byte(nil), rest[:n]...))
+		rest = rest[n:]
+	}
+	wire := s.end.out.buf[start:]
+	want := 0
+	for _, ch := range chunks {
+		want += 18 + len(ch) + 16
+	}
+	if len(wire) != want {
+		r.Fail("frame-size", "%s: a %d byte payload (%d records) put %d bytes on the wire, expected %d", s.name, len(b), len(chunks), len(wire), want)
+	}
+	enc := uint64(2 * len(chunks))
+	after := nonceKey{c.secretKey, c.nonce}
+	for j := uint64(0); j < enc; j++ {
+		k := nonceKey{k0, n0 + j}
+		if n0+j >= keyRotationInterval {
+			k = nonceKey{after.key, n0 + j - keyRotationInterval}
+		}
+		if _, dup := s.used[k]; dup {
+			r.Fail("nonce-reuse", "%s encrypted with a (key, nonce=%d) pair it already used", s.name, k.nonce)
+		}
+		s.used[k] = struct{}{}
+	}
+	if n0+enc >= keyRotationInterval {
+		if after.nonce != n0+enc-keyRotationInterval || after.key == k0 {
+			r.Fail("rotation", "%s: after %d encryptions the key must rotate and the nonce restart (nonce=%d, key changed=%v)", s.name, keyRotationInterval, after.nonce, after.key != k0)
+		}
+		s.rot++
+		r.Count("probe_key_rotation")
+	} else if after.nonce != n0+enc || after.key != k0 {
+		r.Fail("nonce-step", "%s: nonce went %d -> %d for %d records (key changed=%v)", s.name, n0, after.nonce, len(chunks), after.key != k0)
+	}
+	for _, ch := range chunks {
+		n := 18 + len(ch) + 16
+		s.sent = append(s.sent, ch)
+		s.frames = append(s.frames, append([]byte(nil), wire[:n]...))
+		wire = wire[n:]
+	}
+	r.Count("probe_chunked_conn_write")
 }
 
 // noiseReadAll reads every complete message pending for reader s.
@@ -569,7 +689,6 @@ func noiseAttack(r *simcore.Run, sides [2]*noiseSide, wires [2]*simWire) {
 		r.Count("probe_read_continues_after_error")
 	}
 }
-
 
 // ---- full-duplex arm ---------------------------------------------------
 //
